@@ -172,8 +172,15 @@ func genProfile(r *rand.Rand) *profile.Profile {
 	if r.Intn(2) == 0 {
 		p.Function[len(p.Function)-1].ID = uint64(len(p.Function) + 1 + r.Intn(3))
 	}
+	if nf >= 2 && r.Intn(4) == 0 {
+		// a table that is neither dense nor sorted, whose last entry happens to carry the table's
+		// length as its id while an earlier one lies just above it
+		p.Function[nf-1].ID = uint64(nf)
+		p.Function[0].ID = uint64(nf + 1 + r.Intn(2))
+	}
 	ids := map[uint64]bool{}
-	for _, f := range p.Function {
+	for i := len(p.Function) - 1; i >= 0; i-- {
+		f := p.Function[i]
 		for ids[f.ID] {
 			f.ID += 100
 		}
